@@ -944,3 +944,214 @@ Proof.
   - eapply step_set_archs; eauto.
   - eapply step_add_profile; eauto.
 Qed.
+
+(* ------------------------------------------------------------------ removals: the range the code removes, on layouts *)
+Lemma skipn_skipn_ {A} a : forall b (l : list A), skipn a (skipn b l) = skipn (b + a) l.
+Proof.
+  intros b; induction b as [|b IH]; intros l; [reflexivity|]. destruct l as [|x l]; [now rewrite !skipn_nil|].
+  cbn [skipn Nat.add]. apply IH.
+Qed.
+(* Entry::remove of the element at ci: what is left, by the range of RelEditTree.entry_remove_range *)
+Local Opaque skipn.
+Lemma remove_at_range l ci l' : a_remove_at l ci = Some l' ->
+  l' = firstn (fst (entry_remove_range fixed (map rt l) ci)) l ++ skipn (snd (entry_remove_range fixed (map rt l) ci)) l.
+Proof.
+  unfold entry_remove_range, a_remove_at, entry_remove_scan_next, entry_remove_scan_prev.
+  rewrite firstn_map, skipn_map. set (pre := firstn ci l). set (post := skipn (S ci) l).
+  rewrite ws_prefix_len_rt, skipn_map.
+  assert (Ef : existsb (fun c => is_entry c || (fx_first_substvar fixed && node_is SUBSTVAR c)) (map rt pre)
+               = existsb is_item pre).
+  { apply existsb_map. intros x. cbn [fx_first_substvar fixed andb]. apply is_item_rt. }
+  rewrite Ef.
+  assert (Hprev : forall rc,
+    (let rp := rev (map rt pre) in let n := ws_prefix_len rp in
+     match skipn n rp with
+     | c :: _ => if negb rc && kind_is COMMA c then S n else n
+     | [] => n
+     end) =
+    (let rp := rev pre in let m := wlen rp in
+     match skipn m rp with RC :: _ => if rc then m else S m | _ => m end)).
+  { intros rc. cbv zeta. rewrite <- map_rev, ws_prefix_len_rt, skipn_map.
+    destruct (skipn (wlen (rev pre)) (rev pre)) as [|y r']; [reflexivity|]. cbn [map]. rewrite is_comma_rt.
+    destruct y, rc; reflexivity. }
+  assert (Hpre : forall k, firstn (ci - k) pre = firstn (ci - k) l).
+  { intros k. unfold pre. rewrite firstn_firstn. f_equal. lia. }
+  destruct (skipn (wlen post) post) as [|x r] eqn:E.
+  - cbn [map]. destruct (negb (existsb is_item pre)); intros [= <-]; cbn [fst snd].
+    + rewrite skipn_map, ws_prefix_len_rt. f_equal. unfold post. rewrite !skipn_skipn_. f_equal. lia.
+    + cbv zeta in Hprev. rewrite (Hprev false), Hpre. f_equal. unfold post. rewrite skipn_skipn_. reflexivity.
+  - cbn [map]. rewrite is_comma_rt. destruct x; cbn [is_rc]; try discriminate.
+    destruct (negb (existsb is_item pre)); intros [= <-]; cbn [fst snd].
+    + rewrite skipn_map, ws_prefix_len_rt. f_equal. unfold post. rewrite !skipn_skipn_. f_equal. lia.
+    + cbv zeta in Hprev. rewrite (Hprev true), Hpre. f_equal. unfold post. rewrite skipn_skipn_. reflexivity.
+Qed.
+Local Transparent skipn.
+
+(* the entries in front of a position *)
+Definition cnt (l : lroot) (k : nat) : nat := length (lentries (firstn k l)).
+Lemma cnt_mono l a b : a <= b -> cnt l a <= cnt l b.
+Proof.
+  intros H. unfold cnt. replace (firstn a l) with (firstn a (firstn b l)) by (rewrite firstn_firstn; f_equal; lia).
+  apply lentries_firstn_le.
+Qed.
+Lemma cnt_entry l i ci e : nth_entry l i = Some (ci, e) -> cnt l ci = i /\ cnt l (S ci) = S i.
+Proof.
+  intros H. destruct (nth_entry_entries _ _ _ _ H) as (pre & post & -> & <- & <-). unfold cnt. split.
+  - now rewrite firstn_app_len.
+  - replace (pre ++ RE e :: post) with ((pre ++ [RE e]) ++ post) by (now rewrite <- app_assoc).
+    replace (S (length pre)) with (length (pre ++ [RE e])) by (rewrite app_length; cbn; lia).
+    rewrite firstn_app_len, lentries_app, app_length. cbn. lia.
+Qed.
+Lemma cnt_skipn l k : length (lentries (skipn k l)) = length (lentries l) - cnt l k.
+Proof. unfold cnt. pose proof (lentries_firstn_skipn k l). lia. Qed.
+
+(* the children [lo, hi) of the root go, exactly one entry (number i) among them: where the
+   other entries are afterwards *)
+Lemma cut_entry_pos l i ci e lo hi i0 c0 e0 :
+  nth_entry l i = Some (ci, e) -> lo <= ci -> ci < hi ->
+  length (lentries (firstn lo l ++ skipn hi l)) + 1 = length (lentries l) ->
+  nth_entry l i0 = Some (c0, e0) -> i0 <> i ->
+  (c0 < lo \/ hi <= c0) /\
+  nth_entry (firstn lo l ++ skipn hi l) (if i <? i0 then i0 - 1 else i0)
+  = Some ((if hi <=? c0 then c0 - (hi - lo) else c0), e0).
+Proof.
+  intros He Hlo Hhi Hn H0 Hne.
+  destruct (cnt_entry _ _ _ _ He) as (Ci & Ci'). destruct (cnt_entry _ _ _ _ H0) as (C0 & C0').
+  rewrite lentries_app, app_length, cnt_skipn in Hn. fold (cnt l lo) in Hn.
+  pose proof (cnt_mono l lo ci Hlo) as M1. pose proof (cnt_mono l (S ci) hi ltac:(lia)) as M2.
+  assert (Hle : cnt l hi <= length (lentries l)) by (unfold cnt; apply lentries_firstn_le).
+  assert (Clo : cnt l lo = i) by lia. assert (Chi : cnt l hi = S i) by lia.
+  destruct (nth_entry_entries _ _ _ _ H0) as (pre0 & post0 & El & L0 & N0).
+  assert (Hci : ci < length l) by (destruct (nth_entry_entries _ _ _ _ He) as (p1 & q1 & -> & <- & _); rewrite app_length; cbn; lia).
+  destruct (Nat.lt_ge_cases c0 lo) as [Hc|Hc]; [|destruct (Nat.lt_ge_cases c0 hi) as [Hc'|Hc']].
+  - split; [now left|]. pose proof (cnt_mono l (S c0) lo ltac:(lia)).
+    replace (i <? i0) with false by (symmetry; apply Nat.ltb_ge; lia).
+    replace (hi <=? c0) with false by (symmetry; apply Nat.leb_gt; lia).
+    subst l. rewrite firstn_app. rewrite (firstn_all2 (n := lo)) by lia.
+    destruct (lo - length pre0) as [|d] eqn:Ed; [lia|]. cbn [firstn]. rewrite <- !app_assoc. cbn [app].
+    rewrite <- L0, <- N0. apply nth_entry_at.
+  - exfalso. pose proof (cnt_mono l lo c0 Hc). pose proof (cnt_mono l (S c0) hi ltac:(lia)). lia.
+  - split; [now right|]. pose proof (cnt_mono l hi c0 Hc').
+    replace (i <? i0) with true by (symmetry; apply Nat.ltb_lt; lia).
+    replace (hi <=? c0) with true by (symmetry; apply Nat.leb_le; lia).
+    assert (Es : skipn hi l = skipn hi pre0 ++ RE e0 :: post0).
+    { rewrite El, skipn_app. replace (hi - length pre0) with 0 by lia. reflexivity. }
+    assert (Ef : firstn hi pre0 = firstn hi l).
+    { rewrite El, firstn_app. replace (hi - length pre0) with 0 by lia. cbn [firstn]. now rewrite app_nil_r. }
+    rewrite Es, app_assoc.
+    replace (i0 - 1) with (length (lentries (firstn lo l ++ skipn hi pre0))).
+    2:{ rewrite lentries_app, app_length. fold (cnt l lo). pose proof (lentries_firstn_skipn hi pre0) as Hs.
+        rewrite Ef in Hs. fold (cnt l hi) in Hs. lia. }
+    rewrite nth_entry_at. f_equal. f_equal. rewrite app_length, firstn_length, skipn_length. lia.
+Qed.
+
+(* ------------------------------------------------------------------ Entry::remove / Relations::remove_entry *)
+Lemma keeps_del_entry p : keeps (del_entry_ref p).
+Proof. intros []; cbn; try reflexivity; destruct (_ =? p); reflexivity. Qed.
+
+(* the entry goes, through ANY register that holds its handle (a temporary one included) *)
+Lemma entry_remove_core b sv ts rs extra a tid ri l i ci e r l' :
+  nth_error ts tid = Some (mk_slot true ri (ltree l)) -> lwf b l = true -> lcontent l = (h_f a, sv) ->
+  h_reg a 0 = Some Root -> (forall q, ref_ok ts tid l (reg_at rs q) (h_reg a q)) -> new_uniq rs (h_reg a) ->
+  nth_entry l i = Some (ci, e) ->
+  nth_error (rs ++ extra) r = Some (Some (mk_hnd tid [ci])) ->
+  a_remove_at l ci = Some l' -> lwf b l' = true -> lcontent l' = (xstep (h_f a) (ARemoveEntry i), sv) ->
+  exists ts' F tn rn,
+    runs (entry_remove fixed r) (mk_state ts (rs ++ extra)) tt (mk_state ts' (map (option_map F) (rs ++ extra))) /\
+    F (mk_hnd tid [ci]) = mk_hnd tn [] /\ nth_error ts' tn = Some (mk_slot true rn (lentry_tree e)) /\
+    Rel b sv (mk_state ts' (map (option_map F) rs))
+        (mk_hstate (xstep (h_f a) (ARemoveEntry i)) (remap (del_entry_ref i) (h_reg a))).
+Proof.
+  intros HT Hw Hc H0 Hok U He Hr Hal Hw' Hc'.
+  destruct (nth_entry_entries _ _ _ _ He) as (lp & lq & El & Lp & Li).
+  pose proof (nth_error_Some_lt _ _ _ HT) as Hlt.
+  assert (Ecs : map rt l = map rt lp ++ lentry_tree e :: map rt lq) by (rewrite El, map_app; reflexivity).
+  assert (Lmp : length (map rt lp) = ci) by (now rewrite map_length).
+  assert (HG : get_path (ltree l) [] = Some (Node ROOT (map rt lp ++ lentry_tree e :: map rt lq))) by (cbn [get_path]; unfold ltree; now rewrite Ecs).
+  assert (Hcs : entry_remove_cs fixed (map rt lp ++ lentry_tree e :: map rt lq) (length (map rt lp)) = Ok (map rt l')).
+  { rewrite <- Ecs, Lmp, remove_at_commute, Hal. reflexivity. }
+  assert (Hr' : nth_error (rs ++ extra) r = Some (Some (mk_hnd tid ([] ++ [length (map rt lp)])))) by (rewrite Lmp; exact Hr).
+  destruct (entry_remove_spec_x ts (rs ++ extra) r tid ri (ltree l) [] ROOT (map rt lp) (lentry_tree e) (map rt lq) (map rt l') Hr' HT HG Hcs)
+    as (ts' & F & R & L & T' & O & (tn & rn & S1 & N1) & A & C & Blo & Bhi).
+  rewrite <- Ecs, Lmp in C, Blo, Bhi.
+  set (lo := fst (entry_remove_range fixed (map rt l) ci)) in *. set (hi := snd (entry_remove_range fixed (map rt l) ci)) in *.
+  pose proof (remove_at_range l ci l' Hal) as El'. fold lo hi in El'.
+  assert (Hn : length (lentries (firstn lo l ++ skipn hi l)) + 1 = length (lentries l)).
+  { rewrite <- El'. rewrite El in Hal. rewrite <- Lp in Hal. destruct (remove_at_entries _ _ _ _ Hal) as [-> _].
+    rewrite El, lentries_split, !app_length. cbn [length]. lia. }
+  exists ts', F, tn, rn. split; [exact R|]. split; [rewrite Lmp in S1; exact S1|]. split; [exact N1|].
+  exists tid, ri, l'. cbn [trees regs h_f h_reg]. split; [rewrite T'; reflexivity|]. split; [exact Hw'|]. split; [exact Hc'|].
+  split; [unfold remap; rewrite H0; reflexivity|].
+  assert (HF : forall g, h_tid g < length ts -> h_tid g <> tid -> F g = g) by (intros g _ Hn0; apply A; now apply above_other).
+  assert (O' : forall j sl, nth_error ts j = Some sl -> j <> tid -> nth_error ts' j = Some sl).
+  { intros j sl Hj Hn0. rewrite O; [exact Hj|exact Hn0|eapply nth_error_Some_lt; exact Hj]. }
+  destruct C as [Ca Cb].
+  split.
+  - eapply refs_transport; [apply keeps_del_entry|exact O'|exact HF|apply A, above_root| | |exact Hok].
+    + intros i0 c0 e0 H1. cbn [del_entry_ref]. destruct (i0 =? i) eqn:Ei; [exact I|]. apply Nat.eqb_neq in Ei.
+      destruct (cut_entry_pos l i ci e lo hi i0 c0 e0 He Blo Bhi Hn H1 Ei) as (Hside & Hpos). rewrite <- El' in Hpos.
+      cbn [ref_ok]. eexists _, e0. split; [exact Hpos|]. change [c0] with ([] ++ c0 :: []).
+      destruct Hside as [Hs|Hs].
+      * rewrite Ca by exact Hs. replace (hi <=? c0) with false by (symmetry; apply Nat.leb_gt; lia). reflexivity.
+      * rewrite Cb by exact Hs. replace (hi <=? c0) with true by (symmetry; apply Nat.leb_le; lia). reflexivity.
+    + intros i0 j c0 e0 cj H1 Hj. cbn [del_entry_ref]. destruct (i0 =? i) eqn:Ei; [exact I|]. apply Nat.eqb_neq in Ei.
+      destruct (cut_entry_pos l i ci e lo hi i0 c0 e0 He Blo Bhi Hn H1 Ei) as (Hside & Hpos). rewrite <- El' in Hpos.
+      cbn [ref_ok]. eexists _, e0, cj. split; [exact Hpos|]. split; [exact Hj|]. change [c0; cj] with ([] ++ c0 :: [cj]).
+      destruct Hside as [Hs|Hs].
+      * rewrite Ca by exact Hs. replace (hi <=? c0) with false by (symmetry; apply Nat.leb_gt; lia). reflexivity.
+      * rewrite Cb by exact Hs. replace (hi <=? c0) with true by (symmetry; apply Nat.leb_le; lia). reflexivity.
+  - eapply uniq_transport; [apply keeps_del_entry|exact HF|exact Hok|exact U].
+Qed.
+
+Lemma remove_entry_layout b l f sv i ci e : lwf b l = true -> lcontent l = (f, sv) -> nth_entry l i = Some (ci, e) ->
+  exists l', a_remove_at l ci = Some l' /\ lwf b l' = true /\ lcontent l' = (xstep f (ARemoveEntry i), sv).
+Proof.
+  intros Hw Hc He. destruct (nth_entry_content _ _ _ _ _ _ Hc He) as (Hi & _).
+  assert (Hx : x_in_range (fst (lcontent l)) (ARemoveEntry i) = true) by (rewrite Hc; cbn; now apply Nat.ltb_lt).
+  destruct (live_step_tree b (ARemoveEntry i) l Hw eq_refl Hx) as (l' & Ha & _ & Hw' & Hc' & _).
+  cbn [a_op] in Ha. unfold a_remove_entry in Ha. destruct (nth_entry_inv _ _ _ _ He) as (_ & _ & _ & _ & Hn). rewrite Hn in Ha.
+  exists l'. rewrite Hc', Hc. auto.
+Qed.
+
+Lemma step_remove_entry b sv st a i a' tr : Rel b sv st a -> h_op (ORemoveEntry i) a = Some (a', tr) ->
+  exists out st', run_op fixed (ORemoveEntry i) st = Ok (out, st') /\ Rel b sv st' a'.
+Proof.
+  destruct st as [ts rs]. intros HR Ha. pose proof HR as (tid & ri & l & HT & Hw & Hc & H0 & Hok & U). cbn [trees regs] in *.
+  cbn [h_op] in Ha. destruct (i <? length (h_f a)) eqn:Ei; [|discriminate]. injection Ha as <- <-.
+  apply Nat.ltb_lt in Ei. rewrite (content_entries _ _ _ Hc), map_length in Ei.
+  destruct (nth_entry_lt l i Ei) as (ci & e & He).
+  destruct (remove_entry_layout b l _ sv i ci e Hw Hc He) as (l' & Hal & Hw' & Hc').
+  pose proof (rel_root ts rs a tid l H0 Hok) as Hr0.
+  destruct (entry_remove_core b sv ts rs [Some (mk_hnd tid [ci])] a tid ri l i ci e (length rs) l' HT Hw Hc H0 Hok U He
+              (nth_error_app_at _ _) Hal Hw' Hc') as (ts' & F & tn & rn & R & S1 & N1 & HR').
+  exists (0%N, Some (text (lentry_tree e))), (mk_state ts' (map (option_map F) rs)). split; [|exact HR'].
+  apply runs_intro. cbn [run_op]. rbind; [|rdone]. unfold relations_remove_entry.
+  eapply runs_eq; [apply runs_scoped|reflexivity|].
+  - rbind; [eapply nth_child_runs; [exact Hr0|exact HT|reflexivity]|].
+    cbn [s_tree ltree children]. rewrite (nth_index_map rt is_entry is_re) by apply is_entry_rt.
+    destruct (nth_entry_inv _ _ _ _ He) as (_ & _ & _ & _ & Hn). rewrite Hn. cbn [option_map app].
+    rbind; [apply runs_push_tmp|]. rbind; [exact R|].
+    unfold node_of_reg. rbind.
+    { rbind; [apply runs_get_reg; rewrite nth_error_map, nth_error_app_at; cbn [option_map]; rewrite S1; reflexivity|].
+      eapply runs_node_of; [exact N1|reflexivity]. }
+    rdone.
+  - cbn [regs]. now rewrite firstn_map_app_len.
+Qed.
+
+Lemma step_eremove b sv st a k a' tr : Rel b sv st a -> h_op (OERemove k) a = Some (a', tr) ->
+  exists out st', run_op fixed (OERemove k) st = Ok (out, st') /\ Rel b sv st' a'.
+Proof.
+  destruct st as [ts rs]. intros HR Ha. pose proof HR as (tid & ri & l & HT & Hw & Hc & H0 & Hok & U). cbn [trees regs] in *.
+  cbn [h_op] in Ha. pose proof (Hok (ereg k)) as Hk. destruct (h_reg a (ereg k)) as [x|] eqn:Ex.
+  - destruct x; try discriminate. injection Ha as <- <-.
+    destruct (reg_at rs (ereg k)) as [gk|] eqn:Egk; [|contradiction]. cbn [ref_ok] in Hk. destruct Hk as (ci & e & He & ->).
+    destruct (remove_entry_layout b l _ sv i ci e Hw Hc He) as (l' & Hal & Hw' & Hc').
+    assert (Hr : nth_error (rs ++ []) (ereg k) = Some (Some (mk_hnd tid [ci]))) by (rewrite app_nil_r; now apply reg_at_nth).
+    destruct (entry_remove_core b sv ts rs [] a tid ri l i ci e (ereg k) l' HT Hw Hc H0 Hok U He Hr Hal Hw' Hc')
+      as (ts' & F & tn & rn & R & S1 & N1 & HR'). rewrite app_nil_r in R.
+    exists (0%N, Some (text (lentry_tree e))), (mk_state ts' (map (option_map F) rs)). split; [|exact HR'].
+    apply runs_intro. cbn [run_op]. eapply through_gen; [exact Egk|exact R|].
+    eapply reg_text_runs; [rewrite reg_at_map, Egk; cbn [option_map]; rewrite S1; reflexivity|exact N1|reflexivity].
+  - injection Ha as <- <-. apply ref_none in Hk. exists (1%N, @None str), (mk_state ts rs). split; [|exact HR].
+    apply runs_intro. cbn [run_op]. now apply through_none.
+Qed.
